@@ -982,7 +982,7 @@ func (in *Interp) call(caller *frame, fn Value, args []Value) Value {
 
 func (in *Interp) callSSA(caller *frame, fn *ssa.Function, args []Value, env []Value) Value {
 	if fn.Parent() == nil {
-		name := fn.String()
+		name := fnName(fn)
 		if h, ok := intrinsics[name]; ok {
 			return h(in, caller, args)
 		}
@@ -1021,7 +1021,7 @@ func (in *Interp) callSSA(caller *frame, fn *ssa.Function, args []Value, env []V
 		}
 	}
 	if fn.Pkg != nil && in.initDone && strings.HasPrefix(fn.Pkg.Pkg.Path(), "github.com/robfig/soy") {
-		if n := fn.String(); !in.funcs[n] && !strings.Contains(n, "verif") && !strings.Contains(n, ".H_") {
+		if n := fnName(fn); !in.funcs[n] && !strings.Contains(n, "verif") && !strings.Contains(n, ".H_") {
 			in.funcs[n] = true
 		}
 	}
@@ -1395,4 +1395,16 @@ func (in *Interp) concPtr(v Value) *Value {
 		return &p.cells[ci]
 	}
 	panic(fmt.Sprintf("concPtr of %T", v))
+}
+
+
+var fnNames sync.Map // *ssa.Function -> string
+
+func fnName(fn *ssa.Function) string {
+	if n, ok := fnNames.Load(fn); ok {
+		return n.(string)
+	}
+	n := fn.String()
+	fnNames.Store(fn, n)
+	return n
 }
